@@ -2585,6 +2585,35 @@ def r11_7(prog, rep, rid='R11.7'):
                   history='a task which failed (target_state FAILED, '
                   'stage_on_error unset) with output_staging directives: the '
                   'directives are carried out')
+        # the guard is decided over the whole finite set of final target
+        # states, not by its shape: every final state other than DONE (and
+        # FAILED, above) must be excluded too - `== FAILED` in the place of
+        # `!= DONE` lets a CANCELED task through
+        final = prog.const('states.py', 'FINAL')
+        if done not in final or failed not in final:
+            raise AnalysisError('anchor constant states.py::FINAL does not '
+                                'hold DONE and FAILED')
+        for other in final:
+            if other in (done, failed):
+                continue
+            hit, par = reach(other, False)
+            rep.check(not hit, rid, f,
+                      '%s: no directive of a task with target_state %s (and '
+                      'no stage_on_error) is collected' % (s.label, other),
+                      construct='skip-on-%s' % str(other).lower(),
+                      message='%s stager: directives of a task whose '
+                      'target_state is %s (not DONE) are collected for '
+                      'staging although stage_on_error is not set: the set '
+                      'of final target states which pass the guard is not '
+                      '{DONE} (path: %s)' % (
+                          s.label, other,
+                          ' ; '.join(literals(g, par, hit[0].id))
+                          if hit else ''),
+                      loc=f.loc(s.appends[0].ast),
+                      history='a task which was canceled while it ran '
+                      '(target_state %s, stage_on_error unset) with '
+                      'output_staging directives: the directives are carried '
+                      'out' % other)
         hit, par = reach(done, False)
         rep.check(bool(hit), rid, f,
                   '%s: directives of a task with target_state DONE are '
@@ -6866,4 +6895,30 @@ SILENT += [
             "                self.advance(task, rps.FAILED)\n",
             "                self.advance([task], rps.FAILED, publish=True, push=False)\n\n"
             "            self._log.debug('staging of %s handled', task['uid'])\n"))]),
+]
+
+
+# ------------------------------------------------------------------------------
+# round 8: R11.7 decides the skip guard of the output stagers over the whole
+# finite set states.FINAL (seed C11-k1: `!= DONE` became `== FAILED`, a CANCELED
+# task is staged)
+_AO_GUARD = "                if task['target_state'] != rps.DONE \\\n"
+_TO_GUARD = "            if target_state and target_state != rps.DONE:\n"
+
+MUTATIONS += [
+    dict(name='R11.7 agent output stager: skip guard compares with FAILED, CANCELED passes (seed C11-k1)', rules=('R11.7',), edits=[
+        (_AO, _AO_GUARD, "                if task['target_state'] == rps.FAILED \\\n")]),
+    dict(name='R11.7 client output stager: skip guard compares with FAILED, CANCELED passes', rules=('R11.7',), edits=[
+        (_TO, _TO_GUARD, "            if target_state and target_state == rps.FAILED:\n")]),
+    dict(name='R11.7 agent output stager: skip guard exempts CANCELED next to DONE', rules=('R11.7',), edits=[
+        (_AO, _AO_GUARD, "                if task['target_state'] not in [rps.DONE, rps.CANCELED] \\\n")]),
+]
+
+SILENT += [
+    dict(name='agent output skip guard spelled as membership in the non-DONE final states', edits=[
+        (_AO, _AO_GUARD, "                if task['target_state'] in [rps.FAILED, rps.CANCELED] \\\n")]),
+    dict(name='agent output skip guard spelled as `not in [DONE]`', edits=[
+        (_AO, _AO_GUARD, "                if task['target_state'] not in [rps.DONE] \\\n")]),
+    dict(name='client output skip guard spelled as membership in the non-DONE final states', edits=[
+        (_TO, _TO_GUARD, "            if target_state in (rps.FAILED, rps.CANCELED):\n")]),
 ]
